@@ -650,7 +650,7 @@ func (fr *Frame) canInline(fn *ssa.Function, bindings []Val) bool {
 			names = append(names, fn.Pkg.Pkg.Name()+"."+fn.Name(), fn.RelString(fn.Pkg.Pkg))
 		}
 		for _, tr := range c.Tracks {
-			if nameMatches(names, tr.Callee) && fn.Parent() == nil {
+			if nameMatches(names, tr.Callee) && fn.Parent() == nil && !tr.Inline {
 				return false
 			}
 		}
